@@ -36,3 +36,15 @@ def run(ctx, col: Collector):
         dedup_obligations(ctx, col, 'C06-collect', [idx.func('pydbml.parser.parser', 'PyDBMLParser.parse_blueprint'),
                                                     idx.func('pydbml.parser.parser', 'PyDBMLParser.build_database')])
     guarded(col, 'C06-collect', 'collect', collect)
+
+    def canonical():
+        # "however it is written": the values Reference equality compares (kind, actions) are stored in one canonical spelling (keywords are caseless AND
+        # canonicalised by the grammar) - shared with C01-case
+        sub = ctx.sub('c01', col.prop)
+        n = 0
+        for o in sub.obs:
+            if o.rule == 'C01-case' and ('reference' in o.construct or o.status != 'discharged'):
+                n += 1
+                col.obs.append(type(o)(col.prop, 'C06-canonical', o.construct, o.status, o.msg, o.file, o.line, o.extra))
+        col.floor('C06-canonical', 'keyword obligations of the reference grammar', n, 5)
+    guarded(col, 'C06-canonical', 'canonical', canonical)
